@@ -2,6 +2,8 @@ import LitexProofs.Bridge.Axl2Wb
 import LitexProofs.Bridge.Wb2Axl
 import LitexProofs.Bridge.Simple
 import LitexProofs.Bridge.Down
+import LitexProofs.Bridge.DownOpen
+import LitexProofs.Bridge.DownBytes
 import LitexProofs.Bridge.Up
 import LitexProofs.Bridge.Ahb2Wb
 import LitexProofs.Bridge.Axi2Axl
@@ -273,6 +275,62 @@ example :
   simp [DownR.wideRd, DownR.pack, DownR.subWord, DownCfg.subAddr, DownCfg.nbFrom, Mem.readWord, Mem.readBytes,
     Mem.ofList, bytesWord, List.range, List.range.loop]
 
+/-- **Down-converter writes: valid stability towards ANY narrow partner, sticky first error.**  Whatever the
+    narrow slave does (arbitrary readies, valids and responses every cycle), with a protocol-following wide master:
+    a narrow AW / W, once raised, is repeated with unchanged address / data / strobe until the cycle of its ready;
+    the wide B is repeated until taken and its `resp` is the FIRST non-OKAY narrow B response taken for this write
+    (`firstErr log`), OKAY if there was none. -/
+theorem axldown_write_stable_sticky (c : DownCfg) (ins : List (AxlM × AxlS)) :
+    let S := DownW.osys c
+    S.LegalFrom (fun s i => s.g.reqHeld i.1) S.init ins →
+    S.AlwaysFrom (fun s i =>
+      s.h.reqHeld (S.out s i).2 ∧
+      (∀ r, s.g.heldB = some r → (S.out s i).1.bvalid = true ∧ (S.out s i).1.bresp = r) ∧
+      ((S.out s i).1.bvalid = true → (S.out s i).1.bresp = firstErr s.log)) S.init ins := by
+  intro S
+  refine Machine.always_of_invariant S _ _ (DownW.OInv c) (fun s i hinv hok => ?_) ins S.init ?_
+  · exact DownW.ostep c s i hinv hok
+  · simp [S, DownW.osys, DownW.OInv, DownW.init, AxlGhost.init]
+
+/-- **Down-converter reads: AR stability towards ANY narrow partner, sticky first error.** -/
+theorem axldown_read_stable_sticky (c : DownCfg) (ins : List (AxlM × AxlS)) :
+    let S := DownR.osys c
+    S.LegalFrom (fun s i => s.g.reqHeld i.1) S.init ins →
+    S.AlwaysFrom (fun s i =>
+      s.h.reqHeld (S.out s i).2 ∧
+      ((S.out s i).1.rvalid = true → (S.out s i).1.rresp = firstErr s.log)) S.init ins := by
+  intro S
+  refine Machine.always_of_invariant S _ _ (DownR.OInv c) (fun s i hinv hok => ?_) ins S.init ?_
+  · exact DownR.ostep c s i hinv hok
+  · simp [S, DownR.osys, DownR.OInv, DownR.init, AxlGhost.init]
+
+/-- Sticky error on a concrete run (16→8, both sub-words written): narrow responses SLVERR (2) then DECERR (3) —
+    the wide B carries 2. -/
+example :
+    let c : DownCfg := { ratio := 2, nbTo := 1, abits := 8 }
+    let S := DownW.osys c
+    let w : AxlM := { AxlM.idle with awvalid := true, awaddr := 4, wvalid := true, wdata := 0xBEEF, wstrb := 3 }
+    let acc : AxlS := { AxlS.idle with awready := true, wready := true }
+    let s := S.runFrom S.init [(w, AxlS.idle), (w, acc), (w, { AxlS.idle with bvalid := true, bresp := 2 }),
+                               (w, acc), (w, { AxlS.idle with bvalid := true, bresp := 3 })]
+    s.log = [2, 3] ∧ (S.out s (AxlM.idle, AxlS.idle)).1.bvalid = true ∧ (S.out s (AxlM.idle, AxlS.idle)).1.bresp = 2 := by
+  decide
+
+/-- **Byte-level meaning of the sub-word reference semantics** (`Bytes.NoWrap`: the wide word containing `a` does
+    not wrap around the address space; `Bytes.noWrap_of_dvd`: true whenever the wide word size divides `2^abits`
+    and `a < 2^abits`).  The `ratio` sub-word writes of `axldown_write_refines_mem` are exactly ONE masked write of
+    the wide word on the flat byte memory, and the word assembled in `axldown_read_refines_mem` is exactly the
+    wide word of the flat byte memory — so both theorems speak about `Mem.writeWord` / `Mem.readWord` at the wide
+    width. -/
+theorem axldown_reference_is_byte_memory (c : DownCfg) (hn : 0 < c.nbTo) (m : Mem) (a : Nat) (hw : Bytes.NoWrap c a) :
+    (∀ st d, DownW.wideWr c m a st d = m.writeWord c.nbFrom (a / c.nbFrom) st d) ∧
+    DownR.wideRd c m a = m.readWord c.nbFrom (a / c.nbFrom) :=
+  ⟨fun st d => Bytes.wideWr_eq_writeWord c m a st d hn hw, Bytes.wideRd_eq_readWord c m a hn hw⟩
+
+/-- `NoWrap` holds for every in-range address of the usual configurations (word size a divisor of `2^abits`). -/
+theorem axldown_nowrap (c : DownCfg) (a : Nat) (hd : c.nbFrom ∣ 2 ^ c.abits) (hN : 0 < c.nbFrom) (ha : a < 2 ^ c.abits) :
+    Bytes.NoWrap c a := Bytes.noWrap_of_dvd c a hd hN ha
+
 /-- Non-vacuity / the fixed finding C09-axil-downconv-write-hang in the model: 64→32 (ratio 2, 4-byte narrow
     words), wide write with strobe 0xF0 to a partner that is ready all the time: the write completes (B presented
     after 6 cycles) and only the upper narrow word is written. -/
@@ -352,6 +410,50 @@ theorem axi2axl_read_burst_partial (aw : Nat) (ins : List (AxiM × AxlS)) :
   refine Machine.always_of_invariant S _ _ Axi2Axl.RInv (fun s i hinv hok => ?_) ins S.init ?_
   · exact Axi2Axl.rstep aw s i hinv hok.1 hok.2
   · simp [S, Axi2Axl.rsys, Axi2Axl.RInv, Axi2Axl.init, Litex.Axi.b2bInit]
+
+/-- **Read and write bursts together** (mixed traffic, every burst type / length / size, every timing) for the
+    environment `Axi2Axl.wellBehaved` — the AXI-Lite partner answers reads one at a time and takes a W beat only
+    after the AW it belongs to, the AXI master puts `w.last` on beat `len + 1` — i.e. outside the open findings
+    rlast-pipelined-slave and w-accepted-before-aw:
+    read beats are marked `last` exactly on beat `len + 1` with the burst's id; during WRITE never more W beats
+    than AWs have been handed over and never more than `len + 1` AWs, and no B is shown; B (as coded: right after
+    the last W beat) is presented only when exactly `len + 1` AWs — at the `AXIBurst2Beat` addresses, see
+    `axi2axl_as_built` — and exactly `len + 1` W beats have been taken by the partner, with the burst's id; the
+    bridge returns to IDLE with an empty request buffer.  (The B still does not wait for the AXI-Lite B responses
+    and error responses are not propagated: finding resp-swallowed.) -/
+theorem axi2axl_bursts_partial (aw : Nat) (ins : List (AxiM × AxlS)) :
+    let S := Axi2Axl.bsys aw
+    S.LegalFrom (fun s i => Axi2Axl.wellBehaved s i) S.init ins →
+    S.AlwaysFrom (fun s i =>
+      (s.br.st = .read → (S.out s i).1.rvalid = true →
+        ((S.out s i).1.rlast = true ↔ s.rCnt = s.br.bufReq.len) ∧ s.rCnt ≤ s.br.bufReq.len ∧
+        (S.out s i).1.rid = s.br.bufReq.id) ∧
+      (s.br.st = .write → s.wCnt ≤ s.awCnt ∧ s.awCnt ≤ s.br.bufReq.len + 1 ∧ (S.out s i).1.bvalid = false) ∧
+      ((S.out s i).1.bvalid = true →
+        s.awCnt = s.br.bufReq.len + 1 ∧ s.wCnt = s.br.bufReq.len + 1 ∧ (S.out s i).1.bid = s.br.bufReq.id)) S.init ins := by
+  intro S
+  refine Machine.always_of_invariant S _ _ Axi2Axl.BInv (fun s i hinv hok => ?_) ins S.init ?_
+  · exact Axi2Axl.bstep aw s i hinv hok
+  · simp [S, Axi2Axl.bsys, Axi2Axl.BInv, Axi2Axl.init, Litex.Axi.b2bInit]
+
+/-- Non-vacuity: INCR write burst of 2 beats, partner taking AW then W each time; after 6 cycles B is presented
+    with both counters at 2.  Negative witness (finding w-accepted-before-aw): the same burst with a partner that
+    takes both W beats while refusing AW reaches WRITE-RESP with NO AW issued. -/
+example :
+    let S := Axi2Axl.bsys 32
+    let rq : Litex.Axi.Req := { addr := 0x100, len := 1, size := 2, burst := 1, id := 2 }
+    let mi : AxiM := { awvalid := false, aw := zeroReq, wvalid := false, wdata := 0, wstrb := 0, wlast := false,
+                       bready := false, arvalid := false, ar := zeroReq, rready := false }
+    let awm : AxiM := { mi with awvalid := true, aw := rq }
+    let w0 : AxiM := { mi with wvalid := true, wdata := 7, wstrb := 15 }
+    let w1 : AxiM := { mi with wvalid := true, wdata := 9, wstrb := 15, wlast := true }
+    let ta : AxlS := { AxlS.idle with awready := true }
+    let tw : AxlS := { AxlS.idle with wready := true }
+    let good := S.runFrom S.init [(awm, AxlS.idle), (w0, ta), (w0, tw), (w1, ta), (w1, tw)]
+    let bad := S.runFrom S.init [(awm, AxlS.idle), (w0, tw), (w1, tw)]
+    (good.br.st = .writeResp ∧ good.awCnt = 2 ∧ good.wCnt = 2 ∧ (S.out good (mi, AxlS.idle)).1.bvalid = true) ∧
+    (bad.br.st = .writeResp ∧ bad.awCnt = 0 ∧ bad.wCnt = 2) := by
+  decide
 
 /-- Negative witness (finding C09-axi2axil-rlast-pipelined-slave): INCR burst of 4 beats; the AXI-Lite partner
     accepts the four ARs before answering; the first R beat (`rCnt = 0`, `len = 3`) is handed over with `last`. -/
